@@ -16,7 +16,8 @@ from vlib import mw, refs
 ID = "C12"
 LEVEL = "exploration"
 RULE = ("two slow-device schedules (exchanges of 0.6-1.4 s adding up to more than the 10 s link time-out) and Hypothesis-generated schedules: 2..16 client threads with scripts of 1..5 mixed "
-        "multi-APDU requests, start offsets and per-exchange device-side delays, against the real "
+        "multi-APDU requests (advance batches of 2 or of 110 blocks whose blocks are other clients' "
+        "brothers), start offsets and per-exchange device-side delays, against the real "
         "TCPServer over real sockets; non-trivial = run in which >= 2 multi-APDU requests of "
         "different clients were in flight at the same time (client-side timestamps); distinct by "
         "schedule fingerprint")
@@ -25,7 +26,7 @@ ASSUMPTIONS = [
     "hold for every schedule of a serial server, so a pass is never timing-dependent",
     "each request carries an extra top-level key (rid) the protocol ignores, used to tag exchanges",
 ]
-REQUIRED_LABELS = {t: ["clients>=8", "overlap-in-flight", "link-faults", "req:advance", "req:sign_auth",
+REQUIRED_LABELS = {t: ["clients>=8", "overlap-in-flight", "request-line>64KiB", "link-faults", "req:advance", "req:sign_auth",
                        "req:sign_unauth", "req:state", "req:signerHb", "req:getPubKey",
                        "stop-path:hb-malformed-der", "stop-path:reconnect-into-ui-heartbeat",
                        "slow-client:Ledger", "slow-client:TCP", "slow-client:SGX"]
@@ -48,11 +49,16 @@ def cases(draw, tier):
         #  what C09 prescribes)
         faults = draw(st.lists(st.tuples(st.integers(0, 80), st.sampled_from(["read", "write"])),
                                min_size=1, max_size=1))
-    return {"clients": clients, "faults": [list(f) for f in faults],
+    advs = [[ci, j] for ci, cl in enumerate(clients) for j, k in enumerate(cl["script"])
+            if k == "advance"]
+    long_one = None
+    if advs and not faults and draw(st.integers(0, 2)) == 0:
+        long_one = draw(st.sampled_from(advs))
+    return {"clients": clients, "faults": [list(f) for f in faults], "long": long_one,
             "delays_us": draw(st.lists(st.integers(0, 3000), min_size=1, max_size=8))}
 
 
-def make_request(kind, rid, ci, j):
+def make_request(kind, rid, ci, j, long_one=None):
     r = copy.deepcopy(T[kind])
     r["rid"] = rid
     if kind == "sign_unauth":
@@ -64,6 +70,18 @@ def make_request(kind, rid, ci, j):
         r["keyId"] = refs.ALL_PATHS[(ci + j) % 6]
     elif kind == "sign_auth":
         r["message"]["input"] = ci * 256 + j
+    elif kind == "advance":
+        # every request has blocks of its own, drawn from a small pool so that one client's
+        # block is another client's brother; now and then a long batch (a request line of
+        # more than 64 KiB)
+        k = ci * 3 + j
+        if long_one == [ci, j]:
+            r["blocks"] = [mw.mkblock(1 + (k + d) % 200) for d in range(110)]
+            r["brothers"] = [[] for _ in r["blocks"]]
+        else:
+            ids = [1 + (k + d) % 5 for d in range(4)]
+            r["blocks"] = [mw.mkblock(ids[0]), mw.mkblock(ids[1])]
+            r["brothers"] = [[mw.mkblock(ids[2])], [mw.mkblock(ids[3]), mw.mkblock(ids[0])]]
     return r
 
 
@@ -103,8 +121,11 @@ def run_case(c):
     p = mw.stack(w, init=False)
     orig = p.handle_request
 
+    seen = set()
+
     def tagged(req):
         cur.rid = req.get("rid") if isinstance(req, dict) else None
+        seen.add(cur.rid)
         try:
             return orig(req)
         finally:
@@ -126,17 +147,19 @@ def run_case(c):
         # timer of its own has had time to start doing it)
         time.sleep(c["manager_age_s"])
     mark = len(w.log)
+    adv_mark = len(w.adv_rx)
     for ordinal, kind in c.get("faults", []):
         w.faults[w.nex + ordinal] = kind
     results = {}
     errors = []
     retries = [0]
+    client_errs = {}
 
     def client(ci, cl):
         time.sleep(cl["offset_ms"] / 1000.0)
         for j, kind in enumerate(cl["script"]):
             rid = "%d.%d" % (ci, j)
-            req = make_request(kind, rid, ci, j)
+            req = make_request(kind, rid, ci, j, c.get("long"))
             line = json.dumps(req).encode() + b"\n"
             t0 = time.time()
             reply = None
@@ -151,21 +174,33 @@ def run_case(c):
                     last = e
                     time.sleep(0.05)
                     continue
+                err = None
                 try:
                     s.sendall(line)
                     f = s.makefile("rb")
                     reply = f.readline()
                 except OSError as e:
-                    last = e
+                    last = err = e
                     reply = b""
                 finally:
                     s.close()
+                if reply == b"" and isinstance(err, ConnectionError) and rid not in seen:
+                    # the connection was reset before the manager ever saw the request: with
+                    # more clients connecting at once than the listen queue holds, the kernel
+                    # (SYN cookies, accept queue full) may drop a connection whose request
+                    # spans several segments; as nothing was delivered, connecting again
+                    # cannot execute anything twice
+                    retries[0] += 1
+                    reply = None
+                    time.sleep(0.05)
+                    continue
                 break
             t1 = time.time()
             if reply is None:
                 errors.append("client %s got no connection: %r" % (rid, last))
                 return
             results[rid] = (kind, req, reply, t0, t1)
+            client_errs[rid] = (last, attempt, t1 - t0)
     ths = [threading.Thread(target=client, args=(i, cl), daemon=True)
            for i, cl in enumerate(c["clients"])]
     for x in ths:
@@ -203,10 +238,34 @@ def run_case(c):
     if faulty:
         missing = []      # a request answered -905 during a failed repair sends no APDU
     if missing:
-        raise Violation("exchanges-not-on-this-device", "requests %s were answered but their "
-                        "exchanges are not in the device log of process %d" % (missing[:5], pid))
-    # --- invariant 4: every client got the reply to its own request
+        raise Violation("exchanges-not-on-this-device", "requests %s were answered (%r) but "
+                        "their exchanges are not in the device log of process %d" % (
+                            missing[:5], (results[missing[0]][2][:80],
+                                          client_errs.get(missing[0])), pid))
+    # --- invariant 3b: what the device was given inside an advance request's block is that
+    # request's blocks and brothers
     labels = []
+    if not faulty:
+        adv_rids = [r for r in runs if r in results and results[r][0] == "advance"]
+        sessions = w.adv_rx[adv_mark:]
+        if len(sessions) != len(adv_rids):
+            raise Violation("advance-sessions", "%d advance requests, the device completed %d "
+                            "block sessions" % (len(adv_rids), len(sessions)))
+        for rid, rx in zip(adv_rids, sessions):
+            req = results[rid][1]
+            got = [bytes(it["buf"]).hex() for it in rx["blocks"]]
+            if got != req["blocks"]:
+                raise Violation("blocks-of-another-request", "%s: the device was given %d "
+                                "blocks %s..., the request has %d" % (
+                                    rid, len(got), [g[:8] for g in got[:4]], len(req["blocks"])))
+            gotb = [sorted(bytes(x["buf"]).hex() for x in (it["brothers"] or []))
+                    for it in rx["blocks"]]
+            if gotb != [sorted(b) for b in req["brothers"]]:
+                raise Violation("brothers-of-another-request", "%s: brothers given to the "
+                                "device differ from the request's" % rid)
+            if len(req["blocks"]) > 100:
+                labels.append("request-line>64KiB")
+    # --- invariant 4: every client got the reply to its own request
     for rid, (kind, req, reply, t0, t1) in results.items():
         rep = mw.parse_reply(reply)
         if rep is None:
